@@ -50,11 +50,20 @@ var stageE = []string{
 	"advanceIndexes",
 }
 
+// (F) the remaining symbol-table functions and the expression printer; equality theorems in
+// Proofs/GenFnPrintProofs.v
+var stageF = []string{
+	"SymbolTable.Index", // SymbolTable.IsDisjoint: NOT translated (map[string]struct{} is outside the subset)
+	"stringstack.Push", "stringstack.Pop", "UnaryOp.Print", "BinaryOp.Print",
+	"Expression.Print",
+}
+
 func main() {
 	args := os.Args[1:]
 	whitelist = append(whitelist, unproved...)
 	whitelist = append(whitelist, stageD...)
 	whitelist = append(whitelist, stageE...)
+	whitelist = append(whitelist, stageF...)
 	if len(args) > 0 && args[0] == "-all" {
 		args = args[1:]
 	}
@@ -65,7 +74,7 @@ func main() {
 	root, outPath := args[0], args[1]
 	p := loadPkg(filepath.Join(root, "datalog"))
 	tr := &Tr{p: p, infos: map[string]*FuncInfo{}, state: map[string]int{}, emitted: map[string]bool{},
-		mutMemo: map[string][]bool{}, rxMemo: map[string]int{}}
+		mutMemo: map[string][]bool{}, rxMemo: map[string]int{}, tstrMemo: map[string]int{}}
 	var failure *transError
 	func() {
 		defer func() {
